@@ -40,16 +40,21 @@ h_obj(size_t n)
 	return (p);
 }
 
-/* a reader in an arbitrary well-formed state: window buf[bufpos .. datalen) inside an exact-size object */
+/*
+ * a reader in an arbitrary well-formed state: window buf[bufpos .. datalen) at ANY place inside the buffer object,
+ * including flush with its end (datalen == buflen: no slack, an over-read of the window leaves the object).
+ * The buffer object itself has the constant size HTTP_N (objects of symbolic size make cbmc's array encoding far more
+ * expensive; the real reader's buffer is >= 4096 bytes whatever the window is).
+ */
 static struct netbuf_read *
 h_mk_reader(void)
 {
 	struct netbuf_read * R = h_obj(sizeof(struct netbuf_read));
-	size_t buflen = nondet_size_t(), bufpos = nondet_size_t(), datalen = nondet_size_t();
+	size_t bufpos = nondet_size_t(), datalen = nondet_size_t();
 
-	__CPROVER_assume(buflen <= HTTP_N && bufpos <= datalen && datalen <= buflen);
-	R->buf = h_obj(buflen);
-	R->buflen = buflen;
+	__CPROVER_assume(bufpos <= datalen && datalen <= HTTP_N);
+	R->buf = h_obj(HTTP_N);
+	R->buflen = HTTP_N;
 	R->bufpos = bufpos;
 	R->datalen = datalen;
 	R->waiting = 0;
@@ -105,6 +110,7 @@ h_mk_ghost(void)
 	g_http_ncb = a;
 	g_http_ncancel = b;
 	g_http_cb_rv = nondet_int();
+	g_http_in.check_headers = 0;	/* only the gotheaders harness builds real header strings */
 	g_http_i = nondet_size_t();
 	g_http_j = nondet_size_t();
 }
